@@ -29,3 +29,8 @@ pub fn toggle64_scalar(carry: u64, quote_mask: u64) -> (u64, u64) {
 }
 
 pub use crate::util::simd::{popcount_512, popcount_512_scalar};
+
+pub use crate::yaml::{
+    VerifAdvancePositions as AdvancePositions, VerifCompactEndPositions as CompactEndPositions,
+    VerifEndPositions as EndPositions, VerifOpenPositions as OpenPositions,
+};
